@@ -1,6 +1,7 @@
 mod util;
 mod arr;
 mod c01;
+mod c02;
 mod c03;
 mod c06;
 mod c15;
@@ -31,7 +32,7 @@ fn exec_line(ctx: &mut Ctx, line: &str) -> String {
     let prop = toks.next().unwrap_or("");
     let second = toks.next().unwrap_or("");
     match prop {
-        "c01" | "c04" | "c06" | "c15" | "c16" | "c17" => {
+        "c01" | "c02" | "c04" | "c06" | "c15" | "c16" | "c17" => {
             let (v, m) = parse_line(line);
             if second == "cfg" {
                 ctx.arr = None;
@@ -48,6 +49,7 @@ fn exec_line(ctx: &mut Ctx, line: &str) -> String {
                     Some(c) => if prop == "c06" { c06::exec_op(c, &mut ctx.c06, &verb, &m, &dtype) }
                         else if prop == "c17" { c17::exec_op(c, &mut ctx.c06, &verb, &m, &dtype) }
                         else if prop == "c15" { c15::exec_op(c, &verb, &m) }
+                        else if prop == "c02" { c02::exec_op(c, &verb, &m) }
                         else if prop == "c16" { c16::exec_op(c, &mut ctx.c06, &mut ctx.c16, &verb, &m, line, &dtype) }
                         else { arr::exec_op(c, &verb, &m) },
                     None => "skip".into(),
@@ -97,6 +99,7 @@ fn main() {
             let prop = a.rest.get(0).cloned().unwrap_or_default();
             match prop.as_str() {
                 "c01" => c01::generate(&a.tier, a.seed),
+                "c02" => c02::generate(&a.tier, a.seed),
                 "c03" => c03::generate(&a.tier, a.seed),
                 "c04" => c01::generate_c04(&a.tier, a.seed),
                 "c06" => c06::generate(&a.tier, a.seed),
